@@ -49,6 +49,7 @@ class Harness:
     def interp(self, cx, loop_specs=None, overrides=None):
         it = Interp(self.repo, cx, prims, loop_specs=loop_specs, overrides=overrides)
         it._harness = self
+        it.called = self.called   # every real function body entered symbolically (overridden callees are not entered)
         cx.ghost["interp"] = it
         return it
 
@@ -190,10 +191,12 @@ def run_property(prop, tier, repo_root):
     prims.USED.clear()
     repo = Repo(repo_root)
     obligations, functions, axioms = [], [], set()
+    executed = set()
     checks = list(mod.CHECKS) + (list(getattr(mod, 'THOROUGH_CHECKS', [])) if tier == 'thorough' else [])
     for chk in checks:
         recs, funcs, H = run_check(repo, chk, tier, prop)
         obligations.extend(recs)
+        executed |= set(H.called)
         for f in funcs:
             if f not in functions:
                 functions.append(f)
@@ -203,6 +206,7 @@ def run_property(prop, tier, repo_root):
         from . import validate
         pv = validate.run(seed=int(os.environ.get("VERIF_SEED", "0") or 0), n_each=3 if tier == "quick" else 40)
     res = _result(obligations, functions, trusted, mod, checks, t0)
+    res["functions_symbolically_executed"] = sorted(executed)
     if pv is not None:
         res["primitive_validation"] = {"layout_contracts_sampled_against_real_torch": pv["samples"], "operations": pv["ops"],
                                        "disagreements": pv["failures"][:5]}
